@@ -145,3 +145,24 @@ contract(F, "EquivalenceDB.get_one_way_vertices", props=["C06"],
                         modifies=_FIND_MODS + ["*res", "all:Set(Int)"])},
          modifies=_FIND_MODS + ["self._one_way_vertices", "all:Set(Int)", "all:DefaultDict(Int, Set(Int))"],
          notes="keys and targets of the rebuilt table are representatives; self loops are dropped")
+
+# ---- find_path (C06): an explanation is refused exactly for labels that are not equivalent, and asking for one does not
+# change the partition or the verified flags (reading the default dictionary of edges may only add empty entries).  That
+# the path starts at the first label, ends at the second and follows recorded edges is NOT proved (an attempt with an
+# `each(dequeue, ...)` invariant over the queued paths left one preservation obligation undecided in both solvers):
+# bounded stand-in c06.
+_V_GROW = ["forall(lambda k: implies(at('loop0', k in self.vertices), k in self.vertices and "
+           "same(self.vertices[k], at('loop0', self.vertices[k]))))",
+           "forall(lambda k, x: implies(at('loop0', k in self.vertices), (x in self.vertices[k]) == at('loop0', x in self.vertices[k])))"]
+_FP_INV = ["wf(self)", "forall(lambda y: self.rep[y] == at('loop0', self.rep[y]))",
+           "forall(lambda y: (y in self.verified_roots) == at('loop0', y in self.verified_roots))"] + _V_GROW
+contract(F, "EquivalenceDB.find_path", props=["C06"],
+         params={"self": E, "comb_class": Int, "other_comb_class": Int}, returns=Seq(Int),
+         locals={"path": Seq(Int), "dequeue": Deque(Seq(Int)), "visited": Set(Int)},
+         raises=[("KeyError", "self.rep[comb_class] != self.rep[other_comb_class]")],
+         ensures=[_REP_SAME, _VR_SAME],
+         loops={0: dict(invariant=_FP_INV + ["each(dequeue, lambda p: len(p) >= 1)", "len(dequeue) > 0 or len(path) >= 1"],
+                        modifies=["*self.vertices", "all:Set(Int)", "*dequeue"]),
+                1: dict(invariant=_FP_INV + ["each(dequeue, lambda p: len(p) >= 1)", "len(path) >= 1"], modifies=["*dequeue"])},
+         modifies=_FIND_MODS + ["*self.vertices", "all:Set(Int)"],
+         notes="KeyError iff the labels are not equivalent; the partition and the verified flags are left as they were")
